@@ -4,6 +4,7 @@ Replies: `(ok payload)`, `(error Kind)`, `(unsupported reason)`, `(bad-request)`
 -/
 import FuraxModel.Codec
 import FuraxModel.Reduce
+import FuraxModel.Dual
 import FuraxModel.Stokes
 import FuraxModel.Toeplitz
 import FuraxModel.Axes
@@ -35,6 +36,14 @@ def handleLevelA (cmd : String) (args : List SExp) : Option SExp :=
     let o ← decOp a
     some (list [atom "ok", encStruct (Op.inS o), encStruct (Op.outS o),
                 ofNat (Op.inSize o), ofNat (Op.outSize o)])
+  | "T", [a] => do some (replyOp (transposeOp (← decOp a)))
+  | "I", [a] => do some (replyOp (inverseOp (← decOp a)))
+  | "block-ctor", [atom k, ops] => do
+    let kind ← ContCls.ofName? k
+    let os ← ops.list?.bind (·.mapM decOp)
+    match blockCtor kind os with
+    | .ok _ => some (list [atom "ok"])
+    | .error e => some (list [atom "error", atom e.name])
   | "echo", [a] => do some (list [atom "ok", encOp (← decOp a)])
   | _, _ => none
 
